@@ -740,11 +740,21 @@ func (t *Tree) Compile(file string, args []string, out io.Writer) (err error) {
 					properties[i].s = set.NewSet()
 				}
 				for i, element := range n.Iterator2() {
-					consumes, properties[i].s = optimizeAlternates(element)
+					var elementConsumes bool
+					elementConsumes, properties[i].s = optimizeAlternates(element)
+					// the choice consumes only if every alternative does
+					consumes = consumes && elementConsumes
 					s = s.Union(properties[i].s)
 				}
 
 				if firstPass {
+					break
+				}
+
+				// An alternative that can succeed without consuming input can succeed
+				// whatever the next character is, so the choice cannot be dispatched on
+				// that character.
+				if !consumes {
 					break
 				}
 
@@ -981,7 +991,6 @@ func (t *Tree) Compile(file string, args []string, out io.Writer) (err error) {
 			t.warn(fmt.Errorf("illegal node type: %v", n.GetType()))
 		}
 	}
-	dryCompile := true
 
 	compile = func(n *node, ko uint) (labelLast bool) {
 		switch n.GetType() {
@@ -989,6 +998,7 @@ func (t *Tree) Compile(file string, args []string, out io.Writer) (err error) {
 			t.warn(fmt.Errorf("internal error #1 (%v)", n))
 		case TypeDot:
 			if n.ParentDetect() {
+				_print("\nposition++")
 				break
 			}
 			_print("\n   if !matchDot() {")
@@ -1015,7 +1025,7 @@ func (t *Tree) Compile(file string, args []string, out io.Writer) (err error) {
 				_print("}")
 			}
 		case TypeRange:
-			if n.ParentDetect() {
+			if n.ParentDetect() && !n.ParentMultipleKey() {
 				_print("\nposition++")
 				break
 			}
@@ -1120,12 +1130,8 @@ func (t *Tree) Compile(file string, args []string, out io.Writer) (err error) {
 					_print(" '%s'", escape(character.String()))
 				}
 				_print(":")
-				if !dryCompile {
-					sequence.SetParentDetect(true)
-					if class.Len() > 1 {
-						sequence.SetParentMultipleKey(true)
-					}
-				}
+				sequence.SetParentDetect(true)
+				sequence.SetParentMultipleKey(class.Len() > 1)
 				if compile(sequence, done) {
 					_print("\nbreak")
 				}
@@ -1150,8 +1156,10 @@ func (t *Tree) Compile(file string, args []string, out io.Writer) (err error) {
 			printBegin()
 			printSave(ok)
 			element := n.Front()
-			element.SetParentDetect(n.ParentDetect())
-			element.SetParentMultipleKey(n.ParentMultipleKey())
+			// The operand of a lookahead is not the alternative's first terminal:
+			// its first character need not be the one the switch dispatched on.
+			element.SetParentDetect(false)
+			element.SetParentMultipleKey(false)
 			compile(element, ko)
 			printRestore(ok)
 			printEnd()
@@ -1161,8 +1169,8 @@ func (t *Tree) Compile(file string, args []string, out io.Writer) (err error) {
 			printBegin()
 			printSave(ok)
 			element := n.Front()
-			element.SetParentDetect(n.ParentDetect())
-			element.SetParentMultipleKey(n.ParentMultipleKey())
+			element.SetParentDetect(false)
+			element.SetParentMultipleKey(false)
 			compile(element, ok)
 			printJump(ko)
 			printLabel(ok)
@@ -1248,7 +1256,6 @@ func (t *Tree) Compile(file string, args []string, out io.Writer) (err error) {
 	}
 	_print = printTemp
 	label = 0
-	dryCompile = false
 
 	/* now for the real compile pass */
 	t.PegRuleType = "uint8"
